@@ -105,7 +105,10 @@ class Doc(object):
         def end(name):
             node = stack.pop()
             idx = p.CurrentByteIndex
-            if b[idx:idx + 2] == b"</":
+            if b[node.stag_end - 2:node.stag_end] == b"/>":     # <a/>: expat reports the position after the tag
+                node.etag_start = node.stag_end
+                node.end = node.stag_end
+            elif b[idx:idx + 2] == b"</":
                 node.etag_start = idx
                 node.end = b.index(b">", idx) + 1
             else:  # <a/>
